@@ -368,12 +368,14 @@ def _kernel_job(rec, kernel, run, classify, replay_fn, replay_name, patches,
   # classes whose (non-linear) path condition the solver could not satisfy
   # in time: a concrete run of the real kernel that reaches the same return
   # site serves as the reachability witness
+  # (run unconditionally so the evidence does not depend on solver timing)
   for cls in expect_classes:
-    if cls not in reach and cls in CONCRETE_WITNESS.get(kernel, {}):
+    if cls in CONCRETE_WITNESS.get(kernel, {}):
       try:
         if CONCRETE_WITNESS[kernel][cls]():
-          reach[cls] = 'concrete witness through the real kernel'
           rec.replayed()
+          if cls not in reach:
+            reach[cls] = 'concrete witness through the real kernel'
       except Exception:  # pylint: disable=broad-except
         pass
   rec.reach(len(expect_classes), len(reach))
@@ -689,4 +691,7 @@ def jobs(tier, seed):
                    timeout=1800 if thorough else 400, cost=2**(L - 5)))
   from harness import checklevel  # pylint: disable=g-import-not-at-top
   out += checklevel.relational_jobs('C01', ('c01',), tier)
+  from harness import selftest  # pylint: disable=g-import-not-at-top
+  out += [Job('engine_selftest_%s' % w, selftest.validate, dict(which=w),
+              timeout=900, cost=5) for w in ('rsa',)]
   return out
